@@ -6,6 +6,7 @@ import (
 	"os"
 	"path/filepath"
 	"regexp"
+	"sort"
 	"strings"
 	"sync"
 
@@ -44,6 +45,16 @@ type OverlaySpec struct {
 	Files map[string]string
 }
 
+// LoadError: the packages do not type-check; Files are the files the errors are reported in.
+type LoadError struct {
+	N     int
+	Files []string
+}
+
+func (e *LoadError) Error() string {
+	return fmt.Sprintf("%d package load errors (harness no longer compiles against the tree?)", e.N)
+}
+
 var stubDirective = regexp.MustCompile(`(?m)^//vsym:stub\s+(\S+)\s*=\s*(\S+)\s*$`)
 
 func LoadProgram(repoDir string, overlay map[string]string, patterns []string) (*Program, error) {
@@ -77,16 +88,30 @@ func LoadProgram(repoDir string, overlay map[string]string, patterns []string) (
 		return nil, err
 	}
 	nerr := 0
+	bad := map[string]bool{}
 	packages.Visit(initial, nil, func(p *packages.Package) {
 		for _, e := range p.Errors {
 			if nerr < 20 {
 				fmt.Fprintf(os.Stderr, "load error: %s: %v\n", p.PkgPath, e)
 			}
 			nerr++
+			// position "file:line:col"
+			pos := e.Pos
+			for k := 0; k < 2; k++ {
+				if i := strings.LastIndex(pos, ":"); i >= 0 {
+					pos = pos[:i]
+				}
+			}
+			bad[pos] = true
 		}
 	})
 	if nerr > 0 {
-		return nil, fmt.Errorf("%d package load errors (harness no longer compiles against the tree?)", nerr)
+		le := &LoadError{N: nerr}
+		for f := range bad {
+			le.Files = append(le.Files, f)
+		}
+		sort.Strings(le.Files)
+		return nil, le
 	}
 	prog, _ := ssautil.AllPackages(initial, ssa.InstantiateGenerics)
 	prog.Build()
@@ -126,7 +151,6 @@ func (w *Worker) lookupIntrinsic(fn *ssa.Function) intrinsicFn {
 	return h
 }
 
-
 func (w *Worker) lookupStub(fn *ssa.Function) *ssa.Function {
 	if s, ok := w.stubCache[fn]; ok {
 		return s
@@ -157,27 +181,27 @@ var denyPrefixes = []string{
 
 // functions inside denied packages that are plain Go and may run from their SSA
 var allowFuncs = map[string]bool{
-	"(*fmt.wrapError).Error":     true,
-	"(*fmt.wrapError).Unwrap":    true,
-	"(*fmt.wrapErrors).Error":    true,
-	"(*fmt.wrapErrors).Unwrap":   true,
-	"os.IsNotExist":              true,
-	"os.IsExist":                 true,
-	"os.IsPermission":            true,
-	"os.underlyingErrorIs":       true,
-	"os.underlyingError":         true,
-	"(*os.LinkError).Error":      true,
-	"(*os.SyscallError).Error":   true,
-	"(*os.SyscallError).Unwrap":  true,
-	"(*os.LinkError).Unwrap":     true,
-	"(syscall.Errno).Is":         true,
-	"(syscall.Errno).Error":      false,
-	"(crypto.Hash).HashFunc":     true,
-	"(crypto.Hash).Available":    false,
-	"(crypto.Hash).String":       true,
-	"(crypto.Hash).Size":         true,
-	"(*sync.Mutex).Lock":         false,
-	"(reflect.Kind).String":      false,
+	"(*fmt.wrapError).Error":           true,
+	"(*fmt.wrapError).Unwrap":          true,
+	"(*fmt.wrapErrors).Error":          true,
+	"(*fmt.wrapErrors).Unwrap":         true,
+	"os.IsNotExist":                    true,
+	"os.IsExist":                       true,
+	"os.IsPermission":                  true,
+	"os.underlyingErrorIs":             true,
+	"os.underlyingError":               true,
+	"(*os.LinkError).Error":            true,
+	"(*os.SyscallError).Error":         true,
+	"(*os.SyscallError).Unwrap":        true,
+	"(*os.LinkError).Unwrap":           true,
+	"(syscall.Errno).Is":               true,
+	"(syscall.Errno).Error":            false,
+	"(crypto.Hash).HashFunc":           true,
+	"(crypto.Hash).Available":          false,
+	"(crypto.Hash).String":             true,
+	"(crypto.Hash).Size":               true,
+	"(*sync.Mutex).Lock":               false,
+	"(reflect.Kind).String":            false,
 	"(*crypto/x509.Certificate).Equal": true,
 	"(github.com/notaryproject/notation-core-go/revocation/result.Result).String":           true,
 	"(github.com/notaryproject/notation-core-go/revocation/result.RevocationMethod).String": true,
@@ -206,7 +230,6 @@ func (w *Worker) denied(fn *ssa.Function) bool {
 	w.denyCache[fn] = d
 	return d
 }
-
 
 // ---------------------------------------------------------------------------
 // package initialisation (lazy, per path for repo packages, per worker for the rest)
